@@ -87,7 +87,7 @@ type CCPlan struct {
 
 func genCCPlan(rt *rapid.T) CCPlan {
 	var p CCPlan
-	if rapid.Bool().Draw(rt, "refusal_sequence") {
+	if rapid.Uint8Range(0, 7).Draw(rt, "refusal_sequence_bits") < 5 { // 5/8 of the plans
 		return genCCSeqPlan(rt)
 	}
 	nc := rapid.IntRange(1, 4).Draw(rt, "nconns")
@@ -112,22 +112,27 @@ func genCCPlan(rt *rapid.T) CCPlan {
 // walks through the whole sequence.
 func genCCSeqPlan(rt *rapid.T) CCPlan {
 	var p CCPlan
-	n := 1 + int(rapid.Uint8Range(0, 7).Draw(rt, "nrefusals_bits"))%3 + 0
-	if n == 1 && rapid.Bool().Draw(rt, "longer") {
-		n = 2
-	}
+	// bits, not IntRange: rapid biases ranges to their bounds
+	n := []int{1, 2, 2, 2, 2, 3, 3, 3}[rapid.Uint8Range(0, 7).Draw(rt, "nrefusals_bits")]
 	for i := 0; i < n; i++ {
 		var c CCConn
-		// bits, not IntRange: rapid biases ranges to their bounds
-		switch k := int(rapid.Uint8Range(0, 15).Draw(rt, "kind_bits")); {
-		case k < 3:
+		k := int(rapid.Uint8Range(0, 15).Draw(rt, "kind_bits"))
+		if i == 0 && k >= 4 && k < 13 {
+			k %= 4 // the first refusal is a wire-level one in 13/16 of the sequences, later ones in 4/16
+		}
+		after := 1
+		if rapid.Uint8Range(0, 3).Draw(rt, "after_bits") == 0 {
+			after = 2
+		}
+		switch {
+		case k < 2:
 			c.Kind = ccKindGoAway
-			c.After = rapid.IntRange(1, 2).Draw(rt, "after")
+			c.After = after
 			c.Processed = rapid.IntRange(0, c.After-1).Draw(rt, "processed")
 			c.TwoPhase = rapid.Bool().Draw(rt, "two_phase")
-		case k < 6:
+		case k < 4:
 			c.Kind = ccKindRST
-			c.After = rapid.IntRange(1, 2).Draw(rt, "after")
+			c.After = after
 		case k < 11:
 			c.Kind = ccKindMCS0
 		case k < 14:
